@@ -5,6 +5,7 @@ import TongoProofs.Lemmas.BitStringFift
 import TongoProofs.Lemmas.BitStringCanon
 import TongoProofs.Lemmas.BitStringTopUp
 import TongoProofs.Lemmas.BitStringCell
+import TongoProofs.Lemmas.BitStringZOps
 /-! Property C06 — bit-string and cell read/write primitives behave like an ideal bit list.
 Property theorems only; helper lemmas live in `TongoProofs/Lemmas/BitString*.lean`.
 
@@ -290,6 +291,47 @@ with zero padding — the bytes `Buffer()` / `bocReprWithoutRefs` expose and the
 abstract bits. Together with `inv_all_ops` and `readBits_refines`: equal bits ⇒ equal data bytes. -/
 theorem canonical_buffer (s : BitString) (hi : Inv s) : s.buf.take ((s.len + 7) / 8) = bitsToBytes (abs s) :=
   buf_take_eq_bitsToBytes s hi
+
+/-! ## Go `int` arguments of any sign, and the direct bit primitives -/
+
+/-- `zop_refines`: the vocabulary with Go `int` parameters as integers. A negative count is an error for `Skip`, every
+reader, `WriteInt` and `WriteBigUint` (state untouched); `WriteUint` with a negative width writes nothing; `WriteBigInt`
+with width ≤ 0 writes its sign bit (if it fits) and fails; `WriteLimUint`/`ReadLimUint` see the uint64 image. Nothing is
+assumed about the sign of an `int` argument (`ZOp.WF` only keeps the uint64/int64 value ranges and representability). -/
+theorem zop_refines (z : ZOp) (hwf : z.WF) (s : BitString) (t : Ideal) (hR : R s t) :
+    normO (z.run s).1 = (z.spec t).1 ∧ R (z.run s).2 (z.spec t).2 :=
+  Tongo.zop_refines z hwf s t hR
+
+/-- `zops_sequence`: `ops_sequence` for operation lists whose `int` arguments may be negative. -/
+theorem zops_sequence (cap : Nat) (ops : List ZOp) (hwf : ∀ z ∈ ops, z.WF) :
+    (ZOp.runAll ops (BitString.new cap)).1.map normO = (ZOp.specAll ops ⟨[], cap, 0⟩).1 ∧
+    R (ZOp.runAll ops (BitString.new cap)).2 (ZOp.specAll ops ⟨[], cap, 0⟩).2 :=
+  zrunAll_refines ops (BitString.new cap) ⟨[], cap, 0⟩ hwf ⟨inv_new cap, abs_new cap, rfl, rfl⟩
+
+/-- a negative `Skip` or read is an error that leaves the state (cursor included) unchanged — a read never moves the
+cursor backwards or invents data (before the repair `Skip(-1)` at cursor 0 made the next `ReadBit` return bit 7 of the
+first byte or panic: corpus/C06/defects.ops) -/
+theorem negative_read_errs (n : Int) (hn : n < 0) (s : BitString) :
+    (ZOp.skip n).run s = (.err errNegative, s) ∧ (ZOp.readUint n).run s = (.err errNegative, s) ∧
+    (ZOp.readInt n).run s = (.err errNegative, s) ∧ (ZOp.readBytes n).run s = (.err errNegative, s) ∧
+    (ZOp.readBits n).run s = (.err errNegative, s) ∧ (ZOp.readBigUint n).run s = (.err errNegative, s) ∧
+    (ZOp.readBigInt n).run s = (.err errNegative, s) ∧ (ZOp.pickUint n).run s = (.err errNegative, s) := by
+  simp only [ZOp.run, hn, if_true, ZOp.failNeg, unitOut_run, throwErr_run, and_self]
+
+/-- `onOff_refines`: `On(n)` / `Off(n)` with `n < 0` or `n ≥ cap` return the overflow error and change nothing; for a
+position inside the written data they set / clear exactly that bit (invariant kept). -/
+theorem onOff_refines (v : Bool) (n : Int) (s : BitString) (t : Ideal) (hR : R s t) :
+    ((n < 0 ∨ n.toNat ≥ s.cap) → ZOp.onOff v n s = (.err errOverflow, s)) ∧
+    (0 ≤ n → n.toNat < s.len →
+      ∃ s', ZOp.onOff v n s = (.ok .unit, s') ∧ R s' { t with bits := t.bits.set n.toNat v }) :=
+  onOff_refines' v n s t hR
+
+/-- Limit (witness): `On` at a position between the written length and the capacity is accepted and dirties the buffer
+tail — the invariant (hence the canonical buffer the cell hash relies on) is lost. Callers must not do that; none in
+tongo does (`On`/`Off` are only used by `WriteBit` at position `len` and by `SetTopUppedArray`). -/
+theorem on_beyond_len_witness :
+    let s := (writeUint 0xAB 8 (BitString.new 16)).2
+    Inv s ∧ (ZOp.onOff true 12 s).1 = .ok .unit ∧ ¬ Inv (ZOp.onOff true 12 s).2 := by decide +kernel
 
 /-! ## Topped-up arrays and parsed cells -/
 
